@@ -1323,6 +1323,15 @@ def _flows_to_events(fn, call):
     st = call
     while not isinstance(st, ast.stmt):
         st = st.parent
+
+    def events_call(c):
+        """self._events.update(...) / .setdefault(...) / .__setitem__(...)"""
+        return isinstance(c, ast.Call) and isinstance(
+            c.func, ast.Attribute) and c.func.attr in (
+            "update", "setdefault", "__setitem__") and is_self_attr(
+            c.func.value, "_events")
+    if isinstance(st, ast.Expr) and events_call(st.value):
+        return True       # built inside the argument of the cache update
     if not isinstance(st, ast.Assign):
         return False
 
@@ -1370,6 +1379,10 @@ def _flows_to_events(fn, call):
     stores = [a for a in assigns if any(
         is_events_store(t) for t in a.targets)
         and names_in(a.value) & carriers]
+    stores += [e for e in walk(fn) if isinstance(e, ast.Expr)
+               and events_call(e.value) and any(
+                   names_in(x) & carriers for x in list(e.value.args) + [
+                       k.value for k in e.value.keywords])]
     if not stores:
         return False
     # on every normal path from the construction to the exit
@@ -2766,4 +2779,28 @@ TWINS = list(TWINS) + [
        "        self.hparent.apply_filter(force=force)"),
       ("        super(RTDC_Hierarchy, self).apply_filter(*args, **kwargs)",
        "        super(RTDC_Hierarchy, self).apply_filter(force)")]),
+]
+
+# round-6 refactoring campaign/refactorings_round6/C04/refactor4
+TWINS = list(TWINS) + [
+    ("image wrappers stored through self._events.update(<generator>)", BASE,
+     ("        for feat in [\"image\", \"image_bg\", \"mask\"]:\n"
+      "            if feat in self.hparent:\n"
+      "                self._events[feat] = ChildNDArray(self, feat)\n",
+      "        self._events.update(\n"
+      "            (feat, ChildNDArray(self, feat))\n"
+      "            for feat in (\"image\", \"image_bg\", \"mask\")\n"
+      "            if feat in self.hparent)\n")),
+]
+
+MUTANTS = list(MUTANTS) + [
+    ("image wrappers collected in a side dictionary", BASE,
+     ("        for feat in [\"image\", \"image_bg\", \"mask\"]:\n"
+      "            if feat in self.hparent:\n"
+      "                self._events[feat] = ChildNDArray(self, feat)\n",
+      "        self._nd_wrappers = {}\n"
+      "        self._nd_wrappers.update(\n"
+      "            (feat, ChildNDArray(self, feat))\n"
+      "            for feat in (\"image\", \"image_bg\", \"mask\")\n"
+      "            if feat in self.hparent)\n"), "R4.2"),
 ]
